@@ -326,8 +326,10 @@ def _view(raw: bytes, transport: str, expected):
     return None if d is None else dict(d)
 
 
-def oracle_verify(m2: bytes, m4, transport: str, acc_id: bytes, ltpk: bytes, eph_sk: bytes, resume=None):
+def oracle_verify(m2: bytes, m4, transport: str, acc_id: bytes, ltpk: bytes, dh, eph_pk: bytes, resume=None):
     """Independent evaluation of the C01 acceptance condition on the bytes actually delivered.
+    dh(P) = X25519(controller ephemeral secret, P) or None when it cannot be known / P is unusable;
+    eph_pk = the controller's ephemeral public key as sent in M1.
     Returns (kind, secret, None) with kind in {'full', 'resume'} when a Done outcome is justified,
     else (None, None, reason).  resume = secret bytes of the previous session, or None."""
     v2 = _view(m2, transport, [T_STATE, T_ERROR, T_PK, T_ENC])
@@ -337,7 +339,8 @@ def oracle_verify(m2: bytes, m4, transport: str, acc_id: bytes, ltpk: bytes, eph
         return None, None, "m2:error-item" + ("" if T_STATE in v2 else ":state-absent")
     if T_STATE in v2 and v2[T_STATE] != b"\x02":
         return None, None, "m2:state"
-    eph_pk = x25519_pub(eph_sk)
+    if eph_pk is None:
+        return None, None, "m1:no-public-key"
     if resume is not None:
         meth, sid, tag = v2.get(T_METHOD), v2.get(T_SID), v2.get(T_ENC)
         if meth and int.from_bytes(meth, "little") == 6 and sid and tag:
@@ -346,7 +349,7 @@ def oracle_verify(m2: bytes, m4, transport: str, acc_id: bytes, ltpk: bytes, eph
                 return "resume", hkdf_sha512(resume, eph_pk + sid, L_RES_SECRET), None
     if T_PK not in v2 or T_ENC not in v2:
         return None, None, "m2:field-missing"
-    shared = x25519_dh(eph_sk, v2[T_PK])
+    shared = dh(v2[T_PK])
     if shared is None:
         return None, None, "m2:public-key-unusable"
     pt = aead_open(hkdf_sha512(shared, L_PVE_SALT, L_PVE_INFO), nonce12(b"PV-Msg02"), b"", v2[T_ENC])
